@@ -2,6 +2,8 @@
 keep-alive arithmetic of broker.Client, life cycle of broker.Engine, scheme dispatch of
 transport.Dial/Launch, the small total functions of package packet."""
 
+import os
+
 ASSUMPTIONS = [
     "float64(int64) rounds to nearest, ties to even (IEEE 754), the product with 0.5 is exact and the conversion back truncates; "
     "int64 addition wraps (modelled; validated through the real broker with MaximumKeepAlive values up to math.MaxInt64)",
@@ -36,6 +38,20 @@ def run(ck):
         path, _ = ck.harness(cmd, extra=extra)
         lines = ck.model("misc", cmd, path)
         ex = open(path).read().splitlines()
+        if cmd == "engine" and any(l.startswith(("propfail ", "diff ")) for l in lines):
+            # the engine traces are cut into quiescent phases by a timer; a trace the monitor or a clause rejects is
+            # run again with a 25 times longer quiet period before it counts (a late goroutine, not the engine)
+            ids = set(l.split()[2].split(",")[1] for l in lines if l.startswith(("propfail ", "diff ")))
+            again = os.path.join(ck.work, "engine_again.txt")
+            open(again, "w").write("\n".join(l for l in ex if l.startswith("eng ") and l.split()[1] in ids) + "\n")
+            os.environ["MISC_QUIET_MS"] = "40"
+            try:
+                path2, _ = ck.harness("engine", out_name="engine_slow.txt", extra=["-replay", again])
+            finally:
+                del os.environ["MISC_QUIET_MS"]
+            ck.stats["eng_rerun_slow"] = len(ids)
+            lines = ck.model("misc", "engine", path2)
+            ex = open(path2).read().splitlines()
         # index the case lines by the identifier the model runner prints (fields joined by ',')
         by_id = {}
         for l in ex:
@@ -43,6 +59,7 @@ def run(ck):
                 head = l.split(" | ")[0].split()
                 by_id[",".join(head[1:])] = l
                 by_id[head[0] + "," + ",".join(head[1:])] = l
+                by_id[head[0] + "," + head[1]] = l
         direct_fail = [l for l in ex if l.startswith("direct ") and " FAIL " in l]
         for l in direct_fail:
             f = l.split()
